@@ -397,11 +397,74 @@ impl C02 {
     }
 }
 
+/// the bundled proving / verification key with gamma_g2 and delta_g2 exchanged in the snarkjs container: another
+/// well-formed key of the same circuit
+fn other_key() -> Option<Vec<u8>> {
+    let mut z = rln::circuit::ZKEY_BYTES.to_vec();
+    let nsec = u32::from_le_bytes(z.get(8..12)?.try_into().ok()?);
+    let mut pos = 12usize;
+    let mut header = None;
+    for _ in 0..nsec {
+        let id = u32::from_le_bytes(z.get(pos..pos + 4)?.try_into().ok()?);
+        let len = u64::from_le_bytes(z.get(pos + 4..pos + 12)?.try_into().ok()?) as usize;
+        pos += 12;
+        if id == 2 {
+            header = Some(pos);
+        }
+        pos += len;
+    }
+    // n8q<4> q<32> n8r<4> r<32> nVars<4> nPublic<4> domainSize<4> alpha1<64> beta1<64> beta2<128> gamma2<128> delta1<64> delta2<128>
+    let g = header? + 84 + 64 + 64 + 128;
+    let d = g + 128 + 64;
+    let (gb, db) = (z.get(g..g + 128)?.to_vec(), z.get(d..d + 128)?.to_vec());
+    if gb == db {
+        return None;
+    }
+    z[g..g + 128].copy_from_slice(&db);
+    z[d..d + 128].copy_from_slice(&gb);
+    Some(z)
+}
+
+impl C02 {
+    /// an instance built with ANOTHER key (same circuit, same tree) must not accept a message made under the bundled key
+    fn other_instance(&self, r: &Req, msg: &[u8], root: &BigUint) -> Vec<Discrepancy> {
+        let case = json!({"kind": "other-key", "req": r.to_json(), "message_hex": hex(msg)});
+        let mut out = vec![];
+        let key = match other_key() { Some(k) => k, None => return vec![Discrepancy { key: "C02/other-key/harness".into(), case, detail: "cannot build the second key from the bundled container".into() }] };
+        let res = guard(|| -> Result<Vec<(String, VResult)>, String> {
+            let mut other = RLN::new_with_params(DEPTH, key, rln::circuit::graph_from_folder().to_vec(), Cursor::new(Vec::<u8>::new())).map_err(|e| format!("new_with_params: {e}"))?;
+            setup_tree(&mut other, r)?;
+            let input = with_signal(msg, &r.signal);
+            Ok(vec![
+                ("verify".to_string(), v_raw(&other, msg)),
+                ("verify_rln_proof".to_string(), v_tree(&other, &input)),
+                ("verify_with_roots[own]".to_string(), v_roots(&other, &input, &codec::fr(root))),
+            ])
+        });
+        match res {
+            Err(pn) => out.push(Discrepancy { key: "C02/other-key/panic".into(), case, detail: pn }),
+            Ok(Err(e)) => out.push(Discrepancy { key: "C02/other-key/harness".into(), case, detail: e }),
+            Ok(Ok(vs)) => {
+                for (name, v) in vs {
+                    if v.accepted() {
+                        out.push(Discrepancy { key: format!("C02/{name}/verifier-holds-another-key/accepted"), case: case.clone(), detail: format!("an instance built with another verification key: {name} returned true for a message made under the bundled key") });
+                    }
+                }
+            }
+        }
+        out
+    }
+}
+
 impl Prop for C02 {
     fn id(&self) -> &'static str { "C02" }
     fn level(&self) -> &'static str { "exploration" }
     fn run_case(&self, case: &Value) -> Vec<Discrepancy> {
         let r = match Req::from_json(&case["req"]) { Some(r) => r, None => return vec![] };
+        if case["kind"] == "other-key" {
+            let msg = unhex(case["message_hex"].as_str().unwrap_or(""));
+            return match with_rln(|rln| setup_tree(rln, &r)) { Ok(s) => self.other_instance(&r, &msg, &s.root), Err(_) => vec![] };
+        }
         let t = match Tamper::from_json(&case["tamper"]) { Some(t) => t, None => return vec![] };
         let msg = unhex(case["message_hex"].as_str().unwrap_or(""));
         if msg.len() != 288 {
@@ -433,6 +496,8 @@ impl Prop for C02 {
                 Err(e) => return Err(format!("base message {k}: {e} (C01's subject; nothing to tamper with)")),
             }
         }
+        // an instance holding another key (built after the bundled key has been used in this process)
+        findings.report_all(self.other_instance(&bases[0], &msgs[0].0, &msgs[0].1));
         // phase 2: all single tamperings, in chunks; every chunk rebuilds the base's tree on its own instance
         let mut items: Vec<(usize, Vec<Tamper>)> = vec![];
         let mut total = 0usize;
@@ -471,7 +536,7 @@ impl Prop for C02 {
         ev.set("tamper_kinds", json!(kinds));
         ev.set("exhaustive", json!(true));
         ev.set("deviation_bound", json!(1));
-        ev.set("rule", json!("for each base message (spread over index/secret/limit/signal/tree-context boundaries): every single alteration out of {each of the 5 public values -> v+1, v-1, 0, 1, p-1, each other field's value; signal -> first/last bit flipped, byte appended/dropped, emptied, replaced; declared length -> len-1, len+1 with extended buffer, 0; every single-bit flip of the 128 proof bytes; for the first base message every single bit of every public value and every pair of bits in two different 64-bit limbs at offsets <= 8 apart (quick) / every pair of bits (thorough), thorough also the limb-pair family on every other base message; each chunk of alterations is preceded on its thread by a verification of the untouched message; verifier tree changed after proving (another leaf set, member deleted / removed by a batch / by a batch with repeated positions / overwritten with the default, append, reset); 6 root sets}; each altered message goes to every verifier the alteration concerns; altered => never true, positive controls (untouched, own root in the set, old root after the tree changed, empty set) => true; distinct_nontrivial = alterations other than 'untouched'"));
+        ev.set("rule", json!("for each base message (spread over index/secret/limit/signal/tree-context boundaries): every single alteration out of {each of the 5 public values -> v+1, v-1, 0, 1, p-1, each other field's value; signal -> first/last bit flipped, byte appended/dropped, emptied, replaced; declared length -> len-1, len+1 with extended buffer, 0; every single-bit flip of the 128 proof bytes; for the first base message every single bit of every public value and every pair of bits in two different 64-bit limbs at offsets <= 8 apart (quick) / every pair of bits (thorough), thorough also the limb-pair family on every other base message; each chunk of alterations is preceded on its thread by a verification of the untouched message; verifier tree changed after proving (another leaf set, member deleted / removed by a batch / by a batch with repeated positions / overwritten with the default, append, reset); 6 root sets}; the first base message is also handed to an instance built with another verification key (gamma_g2 and delta_g2 of the bundled key exchanged), which must not accept it; each altered message goes to every verifier the alteration concerns; altered => never true, positive controls (untouched, own root in the set, old root after the tree changed, empty set) => true; distinct_nontrivial = alterations other than 'untouched'"));
         ev.sample(json!({"base": bases[0].to_json(), "tamper": Tamper::Value(3, big(1), "one".into()).to_json()}));
         ev.sample(json!({"base": bases[1].to_json(), "tamper": Tamper::ProofBit(517).to_json()}));
         ev.sample(json!({"base": bases[2].to_json(), "tamper": Tamper::Tree(1).to_json()}));
